@@ -25,6 +25,44 @@ class Obj:
         return f"o{self.n}"
 
 
+class Item(tuple):
+    """(widget, options) tuple of a container's contents list, carrying its identity number."""
+    n = -1
+
+
+CONTAINERS = ("pile", "columns", "gridflow")
+
+
+def make_container(kind):
+    import urwid
+    if kind == "pile":
+        return urwid.Pile([])
+    if kind == "columns":
+        return urwid.Columns([])
+    return urwid.GridFlow([], 4, 1, 0, "left")
+
+
+def container_item(c, n):
+    import urwid
+    it = Item((urwid.Text(str(n)), c.options()))
+    it.n = n
+    return it
+
+
+class objs_proxy(dict):
+    """dict for apply_op that creates container items on demand."""
+
+    def __init__(self, objs, make):
+        super().__init__(objs)
+        self._objs, self._make = objs, make
+
+    def __contains__(self, k):
+        return True
+
+    def __getitem__(self, k):
+        return self._make(k)
+
+
 def oz(v):
     return [0] if v is None else [1, v]
 
@@ -140,10 +178,21 @@ class C16(core.Check):
             ml.set_modified_callback(lambda: events.append([0]))
         elif kind == "slw":
             ml = urwid.SimpleListWalker(list(base))
+            if base:
+                ml.set_focus(case["focus"])
             urwid.connect_signal(ml, "modified", lambda: events.append([0]))
+        elif kind in CONTAINERS:
+            return self.run_container(case, kind)
         else:
             raise core.MachineryError("unknown subject kind " + kind)
         outs = []
+
+        def fo():
+            if kind in ("mfl", "sflw"):
+                return ml.focus
+            if kind == "slw":       # a plain int attribute, clamped by the walker: report it when the list is not empty
+                return ml.focus if len(ml) else None
+            return None
         for op in case["ops"]:
             del events[:]
             err = None
@@ -151,8 +200,48 @@ class C16(core.Check):
                 ml = apply_op(ml, op, objs)
             except (IndexError, ValueError, TypeError) as e:
                 err = type(e).__name__
-            outs.append([err, [list(e) for e in events], ml.focus if kind in ("mfl", "sflw") else None])
-        return {"outs": outs, "items": [o.n for o in ml], "focus": ml.focus if kind in ("mfl", "sflw") else None}
+            outs.append([err, [list(e) for e in events], fo()])
+        return {"outs": outs, "items": [o.n for o in ml], "focus": fo()}
+
+    def run_container(self, case, kind):
+        """Pile / Columns / GridFlow: the same operations on .contents, plus the property-setter forms."""
+        c = make_container(kind)
+        objs = {}
+
+        def ob(i):
+            if i not in objs:
+                objs[i] = container_item(c, i)
+            return objs[i]
+        c.contents[:] = [ob(i) for i in case["items"]]
+        if case["items"]:
+            c.focus_position = case["focus"]
+
+        def fo():
+            try:
+                return c.focus_position
+            except IndexError:
+                return None
+        outs = []
+        for op in case["ops"]:
+            err = None
+            try:
+                k = op[0]
+                if k == "assign":
+                    c.contents = [ob(i) for i in op[1]]
+                elif k == "iadd_prop":
+                    c.contents += [ob(i) for i in op[1]]
+                elif k == "imul_prop":
+                    c.contents *= op[1]
+                elif k == "setfocus":
+                    c.focus_position = op[1]
+                else:
+                    apply_op(c.contents, op, objs_proxy(objs, ob))
+            except (IndexError, ValueError, TypeError) as e:
+                err = type(e).__name__
+            except Exception as e:            # PileError, ColumnsError, GridFlowError ...
+                err = "Other:" + type(e).__name__
+            outs.append([err, [], fo()])
+        return {"outs": outs, "items": [getattr(o, "n", -1) for o in c.contents], "focus": fo()}
 
     # ---------- model wire format ----------
     def encode(self, case):
@@ -206,14 +295,18 @@ class C16(core.Check):
             objs.setdefault(i, Obj(i))
             ref.append(objs[i])
         n0 = len(ref)
-        plain = case.get("kind", "mfl") in ("ml", "slw")
+        kind = case.get("kind", "mfl")
+        plain = kind in ("ml", "slw")
+        cont = kind in CONTAINERS
         focus = case["focus"] if n0 else None      # expected observable focus index
         for k, op in enumerate(case["ops"]):
             before = list(ref)
             err = None
+            if op[0] in ("assign", "iadd_prop", "imul_prop"):
+                op = {"assign": ["setslice", None, None, None, op[1]], "iadd_prop": ["iadd", op[1]], "imul_prop": ["imul", op[1]]}[op[0]]
             if op[0] == "setfocus":
-                if ref and not (0 <= op[1] < len(ref)):
-                    err = "IndexError"
+                if (ref or cont) and not (0 <= op[1] < len(ref)):
+                    err = "IndexError"       # containers reject any position when empty; the bare list ignores it
             else:
                 try:
                     ref = apply_op(ref, op, objs)
@@ -234,12 +327,17 @@ class C16(core.Check):
                 if fch:
                     msgs.append(f"{tag}: focus-changed callback fired for a failed call")
                 continue
-            changed = [o.n for o in before] != [o.n for o in ref]
+            changed = [o.n for o in before] != [o.n for o in ref] and not cont
             if nmod > 1:
                 msgs.append(f"{tag}: modified callback fired {nmod} times")
             if changed and nmod != 1:
                 msgs.append(f"{tag}: contents changed but modified callback fired {nmod} times")
+            if cont and (nmod or fch):
+                pass
             if plain:
+                if kind == "slw" and ref and not (got_focus is not None and 0 <= got_focus < len(ref)):
+                    msgs.append(f"{tag}: list walker focus {got_focus} out of range for length {len(ref)}")
+                    return msgs
                 continue
             # expected focus
             old_focus = focus
@@ -258,7 +356,7 @@ class C16(core.Check):
                 msgs.append(f"{tag}: focus is {got_focus}, expected {exp} (item tracking)")
                 return msgs
             focus = exp
-            if old_focus is not None and focus is not None:
+            if old_focus is not None and focus is not None and not cont:
                 if old_focus != focus and fch != [focus]:
                     msgs.append(f"{tag}: focus index changed {old_focus}->{focus} but focus-changed events were {fch}")
                 if old_focus == focus and fch:
@@ -374,6 +472,29 @@ class C16(core.Check):
         nrand = 4000 if tier == "quick" else 40000
         for _ in range(nrand):
             yield self.random_case(rng, rng.choice([2, 3, 5, 8, 15, 30]))
+        # container contents (Pile / Columns / GridFlow): list operations and the property-setter forms
+        for kind in CONTAINERS:
+            for n in (0, 1, 3):
+                for f in (range(n) if n else [0]):
+                    for op in self.single_ops(n, 100):
+                        if op[0] == "sort":
+                            continue
+                        yield {"kind": kind, "items": list(range(n)), "focus": f, "ops": [op]}
+                    for op in (["assign", [100, 101]], ["assign", []], ["assign", list(range(n))], ["iadd_prop", [100]],
+                               ["iadd_prop", []], ["imul_prop", 2], ["imul_prop", 0], ["imul_prop", 1]):
+                        yield {"kind": kind, "items": list(range(n)), "focus": f, "ops": [op]}
+            for _ in range(nrand // 16):
+                c = self.random_case(rng, rng.choice([2, 4, 8]))
+                c["kind"] = kind
+                c["ops"] = [o for o in c["ops"] if o[0] != "sort"]
+                for i, o in enumerate(c["ops"]):
+                    if o[0] == "extend" and rng.random() < 0.5:
+                        c["ops"][i] = ["iadd_prop", o[1]]
+                    elif o[0] == "imul" and rng.random() < 0.5:
+                        c["ops"][i] = ["imul_prop", o[1]]
+                    elif o[0] == "clear" and rng.random() < 0.5:
+                        c["ops"][i] = ["assign", [2000 + i, 2001 + i]]
+                yield c
         # the same operations through the list walkers and the plain monitored list
         for kind in ("sflw", "ml", "slw"):
             for n in (0, 1, 3):
@@ -382,7 +503,7 @@ class C16(core.Check):
                         if kind in ("ml", "slw") and op[0] == "setfocus":
                             continue
                         yield {"kind": kind, "items": list(range(n)), "focus": f, "ops": [op]}
-                    if kind != "sflw":
+                    if kind == "ml":
                         break
             for _ in range(nrand // 8):
                 c = self.random_case(rng, rng.choice([2, 4, 8]))
